@@ -487,7 +487,7 @@ func specBadData(stream, function byte, w bool, item secs2.Item) bool {
 //@ func (*connection).DeliverOwnedFrame
 //@ nosafety nil-deref nil-iface
 //@ requires c != nil
-//@ emits hsms.(*ConnectionMetrics).incDataMsgRecv, hsms.(*ConnectionMetrics).incDecodeErr, hsms.(*connection).RouteReply, hsms.(*connection).RouteData, hsms.(*connection).checkSessionID
+//@ emits hsms.(*ConnectionMetrics).incDataMsgRecv, hsms.(*ConnectionMetrics).incDecodeErr, hsms.(*connection).RouteReply, hsms.(*connection).RouteData, hsms.(*connection).checkSessionID, hsms.(replyRegistry).route
 //@ ensures [recv]   (len(frame) >= 10 && frame[4] == 0 && frame[5] == 0) ==> zzCalls("hsms.(*ConnectionMetrics).incDataMsgRecv") == 1 && zzCalls("hsms.(*ConnectionMetrics).incDecodeErr") == 0
 //@ ensures [norecv] !(len(frame) >= 10 && frame[4] == 0 && frame[5] == 0) ==> zzCalls("hsms.(*ConnectionMetrics).incDataMsgRecv") == 0 && result != nil &&
 //@                  zzCalls("hsms.(*connection).RouteReply") == 0 && zzCalls("hsms.(*connection).RouteData") == 0
